@@ -78,8 +78,10 @@ func (hh *heads) Replace(ctx context.Context, old cid.Cid, new cid.Cid, height u
 // List returns the list of current heads plus the max height.
 // @todo Document Heads.List function
 func (hh *heads) List(ctx context.Context) ([]cid.Cid, uint64, error) {
+	// The separator closes the last segment of the namespace: the heads of field (or collection) 2
+	// are not those of field 20.
 	iter, err := hh.store.Iterator(ctx, corekv.IterOptions{
-		Prefix: hh.namespace.Bytes(),
+		Prefix: append(hh.namespace.Bytes(), '/'),
 	})
 	if err != nil {
 		return nil, 0, err
